@@ -13,7 +13,7 @@ import (
 func init() {
 	register(&Spec{ID: "C07", Title: "Incomplete package data is always reported as 'not enough bytes'", Run: runC07,
 		Meta: core.Meta{
-			Explanation: "R07.16 = R15.10. R07.13 = R15.6, R07.14 = R02.4, R07.15 = R15.7 (the retry of a truncated attempt relies on the queue keeping every unread byte and on end-of-message meaning the EOM bit). R07.12 (who-may-call): DiscardUntilCurrentPosition is called only by Channel.WritePacket, Channel.sendPackets and PacketQueue's own methods — never by a parser, whose attempt WritePacket may still have to roll back. R07.11 = R15.14 (Byte/UintK/IntK/String never index the queue themselves: a fast path that does not step to the next packet panics when a re-parse resumes at a packet end). R07.10: PacketQueue.Read returns the full count together with ErrNotEnoughBytes; io.ReadFull/ReadAtLeast/ReadAll/Copy*/bufio discard the error of a read that filled the buffer, so no call of them in the module takes a BytesChannel (or an implementation) as its reader. R07.9 = R02.11: the bytes of a truncated package stay in Channel.queueRx for the retry, so nothing but the reader goroutine's own code may touch that queue. R07.8 = R03.2: the channel's record of the last received package (lastPkgRx, which the next package's LastPkg consults) is assigned only from a package that was delivered, after the delivery — a half-read package of a failed attempt must not become the predecessor of its own retry. Error-discipline typestate over SSA (E-ERR). W = the BytesChannel read methods plus every module function that calls into W and returns an error (fixpoint; interface invokes of Package/FieldFmt/FieldData.ReadFrom belong to W through their implementations). R07.1: for EVERY call into W made inside W, the error result is tested against nil before the next wire read and every return on the failure side returns ErrNotEnoughBytes, the error itself or fmt.Errorf with %w bound to one of them, or the error is returned as is; any other use (dropped, overwritten, %v/%s, errors.New, stored) is a violation. R07.2: every return of PacketQueue.Bytes carries nil or ErrNotEnoughBytes, and a nil-error return with data is dominated by the test that the copied count reached n. R07.3: in tryParsePackage the error of pkg.ReadFrom reaches errors.Is(.,ErrNotEnoughBytes) and its true edge returns false without sending on errCh/packageCh. R07.4: every arm of LookupPackage returns a freshly allocated package and no function in W stores to a package-level variable, so a failed attempt leaves no residue for the retry. R07.5: every module function outside W that performs wire reads is one of the enumerated consumers. R07.6: on the failure side of a call into W the other results of that call (invalid, typically nil, when the error is non-nil) are only passed on, never dereferenced — otherwise a truncated package panics instead of reporting ErrNotEnoughBytes. R07.7: the retry mechanism leaves no residue — C02's R02.1 rule set (rollback to the attempt's own saved position, Reset of the rx queue — which also clears recvEOM — on the end-of-message edge, one package per attempt) is re-run here.",
+			Explanation: "R07.19 = R14.23. R07.17 = the String clause of R15.2 (String returns string(bs), err of its Bytes call on every path: String(0) at the end of the data succeeds as Bytes(0) does). R07.18 (E-CONST): asetypes.ByteSizes lists for INTk, UINTk, SINTk and FLTk exactly k bytes, the width TDS names them after. R07.16 = R15.10. R07.13 = R15.6, R07.14 = R02.4, R07.15 = R15.7 (the retry of a truncated attempt relies on the queue keeping every unread byte and on end-of-message meaning the EOM bit). R07.12 (who-may-call): DiscardUntilCurrentPosition is called only by Channel.WritePacket, Channel.sendPackets and PacketQueue's own methods — never by a parser, whose attempt WritePacket may still have to roll back. R07.11 = R15.14 (Byte/UintK/IntK/String never index the queue themselves: a fast path that does not step to the next packet panics when a re-parse resumes at a packet end). R07.10: PacketQueue.Read returns the full count together with ErrNotEnoughBytes; io.ReadFull/ReadAtLeast/ReadAll/Copy*/bufio discard the error of a read that filled the buffer, so no call of them in the module takes a BytesChannel (or an implementation) as its reader. R07.9 = R02.11: the bytes of a truncated package stay in Channel.queueRx for the retry, so nothing but the reader goroutine's own code may touch that queue. R07.8 = R03.2: the channel's record of the last received package (lastPkgRx, which the next package's LastPkg consults) is assigned only from a package that was delivered, after the delivery — a half-read package of a failed attempt must not become the predecessor of its own retry. Error-discipline typestate over SSA (E-ERR). W = the BytesChannel read methods plus every module function that calls into W and returns an error (fixpoint; interface invokes of Package/FieldFmt/FieldData.ReadFrom belong to W through their implementations). R07.1: for EVERY call into W made inside W, the error result is tested against nil before the next wire read and every return on the failure side returns ErrNotEnoughBytes, the error itself or fmt.Errorf with %w bound to one of them, or the error is returned as is; any other use (dropped, overwritten, %v/%s, errors.New, stored) is a violation. R07.2: every return of PacketQueue.Bytes carries nil or ErrNotEnoughBytes, and a nil-error return with data is dominated by the test that the copied count reached n. R07.3: in tryParsePackage the error of pkg.ReadFrom reaches errors.Is(.,ErrNotEnoughBytes) and its true edge returns false without sending on errCh/packageCh. R07.4: every arm of LookupPackage returns a freshly allocated package and no function in W stores to a package-level variable, so a failed attempt leaves no residue for the retry. R07.5: every module function outside W that performs wire reads is one of the enumerated consumers. R07.6: on the failure side of a call into W the other results of that call (invalid, typically nil, when the error is non-nil) are only passed on, never dereferenced — otherwise a truncated package panics instead of reporting ErrNotEnoughBytes. R07.7: the retry mechanism leaves no residue — C02's R02.1 rule set (rollback to the attempt's own saved position, Reset of the rx queue — which also clears recvEOM — on the end-of-message edge, one package per attempt) is re-run here.",
 			NotDecided:  "Panics on truncated data are C10's rule set. A parser that reads too little and succeeds is not detected here (C06's shape inclusion covers the shape part). Value equality of the retried parse is not decided beyond R07.4.",
 			Assumptions: []string{"errors.Is follows %w chains (standard library)", "BytesChannel has the single implementation PacketQueue, whose read methods all funnel into Bytes (checked in C15)"},
 		}})
@@ -23,7 +23,7 @@ func runC07(r *core.Run) {
 	p := r.Prog
 	ef := newErrFlow(p)
 	r.Rule("R07.1", "every call into a wire-reading function propagates failure as ErrNotEnoughBytes (E-ERR)", 213, true)
-	r.Rule("R07.2", "PacketQueue.Bytes returns only nil/ErrNotEnoughBytes; success only when n bytes were copied", 3, false)
+	r.Rule("R07.2", "PacketQueue.Bytes returns only nil/ErrNotEnoughBytes; success only when n bytes were copied", 2, false)
 	r.Rule("R07.3", "tryParsePackage retries exactly on errors.Is(err, ErrNotEnoughBytes), without reporting", 1, false)
 	r.Rule("R07.4", "fresh package object per parse attempt; no global state written by parsers", 30, true)
 	r.Rule("R07.6", "results of a failed read are not dereferenced (no panic on a truncated package)", 3, false)
@@ -47,6 +47,12 @@ func runC07(r *core.Run) {
 	defer c15Discard(r, "R07.15")
 	r.Rule("R07.16", "SetPosition restores exactly the given position, unconditionally (R15.10): the rollback of a truncated attempt", 1, false)
 	defer c15SetPosition(r, "R07.16")
+	r.Rule("R07.17", "String reports not-enough-bytes exactly when Bytes does (R15.2)", 1, false)
+	defer c15StringIsBytes(r, "R07.17")
+	r.Rule("R07.18", "a fixed-width value asks the queue for its full width", 10, false)
+	defer byteSizesMatchNames(r, "R07.18")
+	r.Rule("R07.19", "a failed read never yields a value (R14.23)", 100, false)
+	defer readErrorsDecideAlone(r, "R07.19")
 
 	errSites(r, ef, "R07.1")
 
